@@ -330,7 +330,8 @@ func clientContents(max int) []content {
 	return out
 }
 
-// module states: a client of the given type (or none) under clientName.
+// module states: a client of the given type (or none) under clientName; clients with a short trusting period so that
+// their oldest consensus state expires between submission and execution.
 func clientStates(h *c07.Host) map[string]sdk.Context {
 	out := map[string]sdk.Context{}
 	now := time.Unix(1_700_000_100, 0)
@@ -342,6 +343,29 @@ func clientStates(h *c07.Host) map[string]sdk.Context {
 			panic(err)
 		}
 		out["a "+strings.SplitN(v.desc, ":", 2)[0]+" client exists"] = ctx
+	}
+	// short trusting periods (the consensus state's own timestamp is close to `now`)
+	{
+		ctx := h.Ctx(now)
+		v := bscVariants(0)[0]
+		b := v.cs.(*bsctypes.ClientState)
+		b.TrustingPeriod = 3600
+		b.Header.Time = uint64(now.Unix())
+		cons := &bsctypes.ConsensusState{Timestamp: uint64(now.Unix()), Height: b.Header.Height, Root: b.Header.Root}
+		k.SetClientState(ctx, clientName, b)
+		k.SetClientConsensusState(ctx, clientName, b.Header.Height, cons)
+		out["a bsc client with a one-hour trusting period exists"] = ctx
+	}
+	{
+		ctx := h.Ctx(now)
+		v := ethVariants(0)[0]
+		e := v.cs.(*ethclient.ClientState)
+		e.TrustingPeriod = 3600
+		e.Header.Time = uint64(now.Unix())
+		if err := k.CreateClient(ctx, clientName, e, &ethclient.ConsensusState{Timestamp: uint64(now.Unix()), Height: e.Header.Height, Root: e.Header.Root}); err != nil {
+			panic(err)
+		}
+		out["an eth client with a one-hour trusting period exists"] = ctx
 	}
 	return out
 }
@@ -381,6 +405,17 @@ func Run(r *ev.Run, tier string) (evals, nontrivial int64) {
 		stateNames = append(stateNames, n)
 	}
 	contents := clientContents(max)
+	// execution happens after the voting period: every state also at a later block time
+	type execState struct {
+		name string
+		ctx  sdk.Context
+	}
+	var execNames []execState
+	for _, n := range stateNames {
+		execNames = append(execNames, execState{n, states[n]})
+		later, _ := states[n].CacheContext()
+		execNames = append(execNames, execState{n + ", two days later", later.WithBlockTime(states[n].BlockTime().Add(48 * time.Hour))})
+	}
 	for _, c := range contents {
 		if !validateBasic(c.c) {
 			r.Outcome("xibc proposal refused by stateless validation")
@@ -399,8 +434,9 @@ func Run(r *ev.Run, tier string) (evals, nontrivial int64) {
 				continue
 			}
 			nontrivial++
-			for _, s2 := range stateNames {
-				err2, pan2 := execute(h, states[s2], c.c)
+			for _, s2x := range execNames {
+				s2 := s2x.name
+				err2, pan2 := execute(h, s2x.ctx, c.c)
 				evals++
 				if evals%503 == 1 {
 					r.Sample(map[string]string{"proposal": c.desc, "submitted_in": s1, "executed_in": s2})
